@@ -402,6 +402,9 @@ def inject(rng, script, info, cls):
         path, field, dim, cont, key = rng.choice(sites)
         d2 = wrong_dim(rng, dim)
         s2 = rand_sys(rng)
+        in_list = isinstance(cont, list)
+        if in_list and rng.random() < 0.4:
+            d2 = (0, 0, 0)          # a text without units where a time is demanded
         if key == "units":
             cont[key] = units_text(s2, d2)
             sc = {"uval": {"v": "0", "u": {"sys": sysj(eff(s2, d2)), "dim": list(d2)}}}
@@ -415,6 +418,13 @@ def inject(rng, script, info, cls):
             else:
                 val = "%r %s" % (v, units_text(s2, d2))
                 sc = {"text": {"v": rstr(v), "u": units_text(s2, d2)}}
+                if in_list:
+                    # numpy turns a list holding a text into np.str_ items: see Model `arrayTextElement`
+                    cont[key] = val
+                    if d2 == (0, 0, 0):
+                        path = "script.t_sample.dimensionless_text[i]"
+                    return path, {"op": "validate", "kind": "array_text", "field": field, "sys": sysj(DEFAULT_SYS), "v": rstr(v), "u": units_text(s2, d2)}, \
+                        "text %r (dimension %s) in a list where %s is demanded" % (val, list(d2), list(dim))
             if isinstance(cont[key], dict) and rng.random() < 0.7:      # inside a per-environment dictionary
                 kk = rng.choice(list(cont[key]))
                 cont[key][kk] = val
@@ -805,7 +815,7 @@ def run(ctx):
     import strengths  # noqa
 
     # ---------------------------------------------------------------- 1. faulted models
-    n = ctx.n(1500, 40000)
+    n = ctx.n(1500, 25000)
     ops, meta = [], []
     base_rejected = 0
     for i in range(n):
